@@ -351,6 +351,10 @@ class UTPM(Ring, RawAlgorithmsMixIn):
             z_data[0] += y_data[0]
             return UTPM(z_data)
 
+        elif not isinstance(rhs, UTPM):
+            # e.g. a traced node (algopy.Function): its reflected operator records the operation
+            return NotImplemented
+
         else:
             x_data, y_data = UTPM._broadcast_arrays(self.data, rhs.data)
             return UTPM(x_data + y_data)
@@ -383,6 +387,10 @@ class UTPM(Ring, RawAlgorithmsMixIn):
             z_data[0] -= y_data[0]
             return UTPM(z_data)
 
+        elif not isinstance(rhs, UTPM):
+            # e.g. a traced node (algopy.Function): its reflected operator records the operation
+            return NotImplemented
+
         else:
             x_data, y_data = UTPM._broadcast_arrays(self.data, rhs.data)
             return UTPM(x_data - y_data)
@@ -406,6 +414,10 @@ class UTPM(Ring, RawAlgorithmsMixIn):
                 rhs_shape = (rhs_shape,)
             x_data, y_data = UTPM._broadcast_arrays(self.data, rhs.reshape((1,1)+rhs_shape))
             return UTPM(x_data * y_data)
+
+        elif not isinstance(rhs, UTPM):
+            # e.g. a traced node (algopy.Function): its reflected operator records the operation
+            return NotImplemented
 
         x_data, y_data = UTPM._broadcast_arrays(self.data, rhs.data)
         dtype = numpy.promote_types(x_data.dtype, y_data.dtype)
@@ -433,6 +445,10 @@ class UTPM(Ring, RawAlgorithmsMixIn):
                 rhs_shape = (rhs_shape,)
             x_data, y_data = UTPM._broadcast_arrays(self.data, rhs.reshape((1,1)+rhs_shape))
             return UTPM(x_data / y_data)
+
+        elif not isinstance(rhs, UTPM):
+            # e.g. a traced node (algopy.Function): its reflected operator records the operation
+            return NotImplemented
 
         x_data, y_data = UTPM._broadcast_arrays(self.data, rhs.data)
         dtype = numpy.promote_types(x_data.dtype, y_data.dtype)
